@@ -127,7 +127,7 @@ func (c *Ctx) collect(r io.Reader) {
 			c.tags[v]++
 		default:
 			key := kind
-			if len(vf) > 1 {
+			if len(vf) > 1 && kind != "diff" {
 				key += " " + vf[1]
 			}
 			c.nfail[key]++
